@@ -1053,5 +1053,73 @@ func ValidCut(sel *Selection, got []string, limit int) string {
 			return ""
 		}
 	}
+	// a trace may also be ranked by any one of its visible spans (a `SELECT DISTINCT trace_id … ORDER BY
+	// timestamp_ns` keeps an unspecified row per trace): acceptable if some choice of representatives
+	// makes the cut a top-n.
+	minIn, maxOut := int64(math.MaxInt64), int64(math.MinInt64)
+	for _, t := range sel.Traces {
+		if g[t.ID] {
+			minIn = min(minIn, t.Recency[1])
+		} else {
+			maxOut = max(maxOut, t.Recency[2])
+		}
+	}
+	if minIn >= maxOut {
+		return ""
+	}
 	return "not-the-most-recent"
+}
+
+// AggregateValue computes, under the base reading, the value the selector's aggregate takes on one
+// trace (ok=false: no matching span / no numeric value / not computable). Generators use it to aim
+// thresholds at the data; verdicts never use it.
+func AggregateValue(sl *Selector, tr *Trace, from, to int64) (val float64, ok bool) {
+	if sl.Agg == nil || sl.Expr == nil {
+		return 0, false
+	}
+	e := &evaluator{from: from, to: to, res: map[string]*regexp.Regexp{}}
+	var vals []float64
+	n := 0
+	for _, sp := range tr.Spans {
+		if !e.visible(sp) {
+			continue
+		}
+		m, err := e.seq(sp, sl.Expr)
+		if err != nil || !m {
+			continue
+		}
+		n++
+		switch {
+		case sl.Agg.Fn == "count":
+		case sl.Agg.Scope == "" && sl.Agg.Name == "duration":
+			vals = append(vals, float64(sp.Dur))
+		default:
+			if v, found := e.lookup(sp, sl.Agg.Scope, sl.Agg.Name); found {
+				if f, num := numericText(v, false); num {
+					vals = append(vals, f)
+				}
+			}
+		}
+	}
+	if sl.Agg.Fn == "count" {
+		return float64(n), n > 0
+	}
+	if len(vals) == 0 {
+		return 0, false
+	}
+	acc := vals[0]
+	for _, v := range vals[1:] {
+		switch sl.Agg.Fn {
+		case "min":
+			acc = math.Min(acc, v)
+		case "max":
+			acc = math.Max(acc, v)
+		default:
+			acc += v
+		}
+	}
+	if sl.Agg.Fn == "avg" {
+		acc /= float64(len(vals))
+	}
+	return acc, true
 }
